@@ -8,6 +8,9 @@ mod c04;
 mod c05;
 mod c06;
 mod c09;
+mod c10;
+mod c11;
+mod c12;
 mod gen;
 mod hp;
 
@@ -33,6 +36,9 @@ fn run(args: &Args, mon: &mut vcommon::mon::Monitor) {
         "C05" => c05::run(mon),
         "C06" => c06::run(mon),
         "C09" => c09::run(mon),
+        "C10" => c10::run(mon),
+        "C11" => c11::run(mon),
+        "C12" => c12::run(mon),
         p => {
             eprintln!("e_geom: unknown property {}", p);
             std::process::exit(2);
